@@ -46,17 +46,17 @@ type memCall struct {
 	pumpDone chan struct{}
 
 	// response
-	hdr       http.Header
-	status    int
-	wrote     bool
-	sent      bool
-	sentCh    chan struct{}
-	snap      http.Header
-	unflushed bytes.Buffer
-	out       bytes.Buffer // flushed, not yet read by the client
-	finished  bool
-	ferr      error
-	werr      error
+	hdr        http.Header
+	status     int
+	wrote      bool
+	sent       bool
+	sentCh     chan struct{}
+	snap       http.Header
+	unflushed  bytes.Buffer
+	out        bytes.Buffer // flushed, not yet read by the client
+	finished   bool
+	ferr       error
+	werr       error
 	clientGone bool
 }
 
